@@ -107,8 +107,11 @@ def report_fails(rep, pid, fails, dialect, clauses):
         if not clause.startswith(clauses):
             continue
         base = clause.split("-")[0]
-        issues = c.get("issues") or [[0, "", "", ""]]
+        issues = c.get("issues") or []
         ev = None
+        if base == "structure" and not issues:
+            issues = duplicate_prop_chunks(find_event(c["part"], c["ep"]))
+        issues = issues or [[0, "", "", ""]]
         for iss in issues:
             k, cls, prop, what = iss
             sig = "%s|%s|%s.%s|%s" % (base, dialect, cls, prop, what)
@@ -119,6 +122,19 @@ def report_fails(rep, pid, fails, dialect, clauses):
                 sig = "meaning|doc|type:%s|%s" % (value_type_of(ev, k, prop), what)
             rep.violation(sig, lambda c=c: {"case": c, "event": find_event(c["part"], c["ep"])},
                           "%s: clause %s failed for %s" % (c["ep"], clause, iss))
+
+
+def duplicate_prop_chunks(ev):
+    """diagnosis only: names that occur on two PROP chunks (the judgement was made by WriterInvariants)"""
+    names = []
+    try:
+        for ch in ev["modes"]["none"]["file"]["chunks"]:
+            if ch["name"] == "PROP":
+                nl = ch["payload"][4] + 256 * ch["payload"][5]
+                names.append((tuple(ch["payload"][0:4]), bytes(ch["payload"][8:8 + nl]).decode(errors="replace")))
+    except Exception:
+        return []
+    return [[0, "", n[1], "duplicate-prop-chunk"] for n in sorted({n for n in names if names.count(n) > 1})]
 
 
 def cleanup(path, rep):
